@@ -563,6 +563,64 @@ fn run_bcase(cx: &Ctx, c: &BCase) {
     check_frame(cx, "batch", &b, p::opcode::BATCH, &want, c.tracing, comp, STREAMS[v % STREAMS.len()], false, &case);
 }
 
+/// The same BATCH shapes through `RawBatchValuesAdapter` (typed `BatchValues` + per-statement serialization
+/// contexts), which is how a session feeds a batch: covers serialize/raw_batch.rs.
+fn run_bcase_adapter(cx: &Ctx, c: &BCase) {
+    use scylla_cql::frame::response::result::{ColumnSpec, TableSpec};
+    use scylla_cql::serialize::raw_batch::RawBatchValuesAdapter;
+    use scylla_cql::serialize::row::RowSerializationContext;
+    use scylla_cql::value::MaybeUnset;
+    let v = c.variant as usize;
+    let btypes = [BatchType::Logged, BatchType::Unlogged, BatchType::Counter];
+    let typed_vals = |alt: u8| -> (Vec<MaybeUnset<Option<i32>>>, Vec<Val>) {
+        match alt {
+            0 => (vec![], vec![]),
+            1 => (vec![MaybeUnset::Set(Some(7))], vec![Val::Bytes(vec![0, 0, 0, 7])]),
+            _ => (vec![MaybeUnset::Set(None), MaybeUnset::Unset], vec![Val::Null, Val::Unset]),
+        }
+    };
+    let mut statements = Vec::new();
+    let mut want_stmts = Vec::new();
+    let mut values: Vec<Vec<MaybeUnset<Option<i32>>>> = Vec::new();
+    let mut specs: Vec<Vec<ColumnSpec<'static>>> = Vec::new();
+    for (i, (prepared, alt)) in c.stmts.iter().enumerate() {
+        let (tv, wv) = typed_vals(*alt);
+        specs.push((0..tv.len()).map(|k| ColumnSpec::borrowed(["a", "b"][k], int(), TableSpec::borrowed("ks", "t"))).collect());
+        if *prepared {
+            let id: Vec<u8> = (0..(i as u8 * 5 + 1)).collect();
+            statements.push(BatchStatement::Prepared { id: Cow::Owned(id.clone()) });
+            want_stmts.push((BatchStmt::Prepared(id), wv));
+        } else {
+            let text = format!("INSERT INTO t\u{e9}{i} (a) VALUES (?)");
+            statements.push(BatchStatement::Query { text: Cow::Owned(text.clone()) });
+            want_stmts.push((BatchStmt::Query(text), wv));
+        }
+        values.push(tv);
+    }
+    match c.count_mode {
+        1 => {
+            values.pop();
+        }
+        2 => values.push(typed_vals(1).0),
+        _ => {}
+    }
+    let serial = (c.opt & 1 != 0).then(|| SERIALS[v % 2]);
+    let timestamp = (c.opt & 2 != 0).then(|| TIMESTAMPS[v % TIMESTAMPS.len()]);
+    let (cons, cons_code) = CONSISTENCIES[c.cons as usize];
+    let ctxs = specs.iter().map(|s| RowSerializationContext::from_specs(s.as_slice()));
+    let b = Batch { statements: Cow::Owned(statements), batch_type: btypes[c.btype as usize], consistency: cons, serial_consistency: serial.map(|s| s.0), timestamp, values: RawBatchValuesAdapter::new(&values, ctxs) };
+    let comp = COMPS[c.comp as usize];
+    let mut case = c.to_json();
+    case["leg"] = json!("batch-adapter");
+    if c.count_mode != 0 {
+        check_refused(cx, "batch-adapter", if c.count_mode == 1 { "one value list fewer than statements" } else { "one value list more than statements" }, &b, c.tracing, comp, &case);
+        return;
+    }
+    let flags = if serial.is_some() { 0x10 } else { 0 } | if timestamp.is_some() { 0x20 } else { 0 };
+    let want = Request::Batch { batch_type: c.btype, statements: want_stmts, consistency: cons_code, flags, serial_consistency: serial.map(|s| s.1), timestamp };
+    check_frame(cx, "batch-adapter", &b, p::opcode::BATCH, &want, c.tracing, comp, STREAMS[v % STREAMS.len()], false, &case);
+}
+
 fn bcases(thorough: bool) -> Vec<BCase> {
     let mut out = Vec::new();
     let mut variant = 0u16;
@@ -856,6 +914,7 @@ fn replay(cx: &Ctx, case: &Value) {
     match case["leg"].as_str() {
         Some("qe") => run_qcase(cx, QCase::from_json(case)),
         Some("batch") => run_bcase(cx, &BCase::from_json(case)),
+        Some("batch-adapter") => run_bcase_adapter(cx, &BCase::from_json(case)),
         Some("batch-boundary") => batch_boundaries(cx),
         Some("refuse") => query_execute_refusals(cx, case["what"].as_str().map(|w| w.ends_with("2g")).unwrap_or(false)),
         Some("small") => small_requests(cx, Some(case)),
@@ -884,7 +943,10 @@ fn main() {
 
     let bc = bcases(thorough);
     r.note("batch_cases", json!(bc.len()));
-    vcore::par::for_each(jobs, 64, bc.into_iter(), |c| run_bcase(cxr, &c));
+    vcore::par::for_each(jobs, 64, bc.into_iter(), |c| {
+        run_bcase(cxr, &c);
+        run_bcase_adapter(cxr, &c);
+    });
     batch_boundaries(&cx);
     query_execute_refusals(&cx, thorough);
     small_requests(&cx, None);
@@ -900,7 +962,7 @@ fn main() {
         vcore::machinery_error(&format!("vacuity: expected all 64/64/4 flag bytes to be produced, saw {q_flags}/{e_flags}/{b_flags}"));
     }
     drop(cx);
-    r.set_rule("E-ENUM. QUERY and EXECUTE (ExecuteV2 with/without result-metadata id; deprecated Execute): all 64 subsets of {values, skip_metadata, page size, paging state, serial consistency, timestamp} x value lists {1 and 2 values over value/null/unset, 65535 values, empty+70000-byte value} x all 11 consistencies x texts {0,1,multi-byte,65535,65536 bytes} / ids {0,1,16,65535 bytes} x tracing x {none,LZ4,Snappy}; field contents (page size, paging state, serial, timestamp, stream id) rotate through boundary alphabets (thorough: 5 rotations each, all consistencies for the huge shapes; quick: huge shapes at 3 consistencies). BATCH: 3 types x every 0..3-statement mix of prepared/unprepared x {0,1,2 values} per statement x {equal, one fewer, one more value lists -> refused} x 4 optional-field subsets x 11 consistencies (thorough: x tracing x compression; quick: rotating); 65535 statements accepted, 65536 refused. PREPARE, STARTUP (incl. 65535-byte keys, 65535 options; 65536 refused), REGISTER (all subsets, both structs), OPTIONS, AUTH_RESPONSE (null/empty/short/70000 bytes). Thorough adds > 2 GiB strings/bytes (must be errors). Oracle: header (version 4, opcode, stream, flags == options used, length == body size), body parsed by cqlref::proto equals the request in order, compressed body decompresses (cqlref's own LZ4/Snappy decoders) to the uncompressed serialization. distinct_nontrivial = frames with >= 2 optional fields or compression, multi-statement batches, refusals, small requests.");
+    r.set_rule("E-ENUM. QUERY and EXECUTE (ExecuteV2 with/without result-metadata id; deprecated Execute): all 64 subsets of {values, skip_metadata, page size, paging state, serial consistency, timestamp} x value lists {1 and 2 values over value/null/unset, 65535 values, empty+70000-byte value} x all 11 consistencies x texts {0,1,multi-byte,65535,65536 bytes} / ids {0,1,16,65535 bytes} x tracing x {none,LZ4,Snappy}; field contents (page size, paging state, serial, timestamp, stream id) rotate through boundary alphabets (thorough: 5 rotations each, all consistencies for the huge shapes; quick: huge shapes at 3 consistencies). BATCH: 3 types x every 0..3-statement mix of prepared/unprepared x {0,1,2 values} per statement x {equal, one fewer, one more value lists -> refused} x 4 optional-field subsets x 11 consistencies (thorough: x tracing x compression; quick: rotating); 65535 statements accepted, 65536 refused; every BATCH shape both with pre-serialized value lists and through RawBatchValuesAdapter (typed BatchValues + serialization contexts). PREPARE, STARTUP (incl. 65535-byte keys, 65535 options; 65536 refused), REGISTER (all subsets, both structs), OPTIONS, AUTH_RESPONSE (null/empty/short/70000 bytes). Thorough adds > 2 GiB strings/bytes (must be errors). Oracle: header (version 4, opcode, stream, flags == options used, length == body size), body parsed by cqlref::proto equals the request in order, compressed body decompresses (cqlref's own LZ4/Snappy decoders) to the uncompressed serialization. distinct_nontrivial = frames with >= 2 optional fields or compression, multi-statement batches, refusals, small requests.");
     r.set_exhaustive(true);
     r.sample(json!({"leg":"qe","kind":0,"subset":63,"vals":7,"cons":6,"text":2,"tracing":true,"comp":1,"meaning":"QUERY with all six optional fields, two values (null, value), LOCAL_QUORUM, LZ4, tracing"}));
     r.sample(json!({"leg":"batch","btype":0,"stmts":[[false,1],[true,2]],"count_mode":1,"meaning":"2 statements, 1 value list: must be refused"}));
